@@ -26,7 +26,7 @@ from ..common import rng_for, b2j
 
 LEVEL = "exploration"
 SHARDS = {"quick": 1, "thorough": 16}
-REQUIRED = ("history_operations", "bystander_comparisons", "alias_scans", "repeated_pack_checks", "ops_unpack", "ops_construct",
+REQUIRED = ("pack_outputs_compared_with_reference_encoding", "bytearray_values_assigned", "history_operations", "bystander_comparisons", "alias_scans", "repeated_pack_checks", "ops_unpack", "ops_construct",
             "ops_set_leaf", "ops_list_append", "ops_set_nested", "ops_pack", "interleavings_executed", "thread_results_compared",
             "free_thread_operations", "context_switches_in_bisturi", "f2_probe_runs")
 MIN_NONTRIVIAL = 100
@@ -57,6 +57,7 @@ class Live:
         self.pkt = pkt
         self.pv = pv
         self.baseline = None   # ("ok", bytes) | ("error",)
+        self.recipe = []       # how this packet came to be, replayable on fresh classes: the isolation twin
 
 
 def pack_outcome(pkt):
@@ -66,6 +67,43 @@ def pack_outcome(pkt):
     if r.status == "timeout":
         return ("timeout",)
     return ("error", r.status)
+
+
+def isolated_outcome(run, bench, lv):
+    """The same packet built ALONE from freshly defined classes (another module: other class and field objects)
+    by replaying its own recipe, then packed.  None when the recipe cannot be replayed."""
+    d = common.scratch_dir("bvf_c13iso_")
+    twin = None
+    try:
+        twin = harness.Bench(bench.fam, VARIANTS, d, instrument=(), local=bench.local)
+        cls = twin.root(lv.variant)
+        pkt = None
+        for step in lv.recipe:
+            if step[0] == "unpack":
+                r = harness.lib_unpack(cls, step[1])
+                if r.status != "ok":
+                    return None
+                pkt = r.pkt
+            elif step[0] == "construct":
+                kw = step[1]
+                pkt = cls(**{k: monitors._real_val(twin.loaded, lv.variant, model.strip_described(bench.fam, model.copy_val(x)), "kwargs", None)
+                             for k, x in kw.items()})
+            elif step[0] == "set":
+                obj = pkt
+                for name in step[1][:-1]:
+                    obj = getattr(obj, name)
+                setattr(obj, step[1][-1], step[2])
+            elif step[0] == "append":
+                getattr(pkt, step[1]).append(step[2])
+        run.count("isolation_twins_built")
+        return pack_outcome(pkt) if pkt is not None else None
+    except Exception:
+        run.count("isolation_twin_failed")
+        return None
+    finally:
+        if twin is not None:
+            twin.close()
+        common.drop_scratch(d)
 
 
 def collect_ids(fam, declname, pkt, out, path):
@@ -123,6 +161,18 @@ def check_all(run, bench, lives, history, acting):
         if out1 != out2:
             run.violation("two consecutive pack() calls returned different results", dict(witness, first=out1, second=out2), None)
             return False
+        # what this packet serializes to must not depend on what happened to OTHER packets before: when the output is not
+        # the reference encoding of its values, the same packet is rebuilt alone from freshly defined classes
+        run.count("pack_outputs_compared_with_reference_encoding")
+        expected = ("ok", _er.data) if est == "ok" else ("error",)
+        if (out1[0] == "ok") != (expected[0] == "ok") or (out1[0] == "ok" and out1[1] != expected[1]):
+            iso = isolated_outcome(run, bench, lv) if lv.recipe else None
+            if iso is not None and "timeout" not in iso and iso != out1:
+                run.violation("what a packet serializes to depends on what was done with other packets before it: in this history pack() gives "
+                              "one result, the same packet built alone from freshly defined classes gives another",
+                              dict(witness, in_history=out1, alone=iso, reference=expected), None)
+                return False
+            run.count("pack_differs_from_reference_also_in_isolation(not judged here)")
         try:
             after = monitors.pkt_to_pv(fam, root, lv.pkt)
         except monitors.Unreadable as e:
@@ -253,11 +303,14 @@ def history_part(run, bench, rng, nops):
                     pkt = cls(**{k: monitors._real_val(bench.loaded, v, model.strip_described(fam, x), "kwargs", None) for k, x in kw.items()})
                     refresh_auto(fam, shadow)
                     history.append(["construct", v, sorted(keys)])
+                    recipe = [("construct", {k: model.copy_val(x) for k, x in kw.items()})]
                 else:
                     pkt = cls()
                     shadow = model.defaults(fam, root)
                     history.append(["construct", v, []])
+                    recipe = [("construct", {})]
                 lives.append(Live(v, pkt, shadow))
+                lives[-1].recipe = recipe
                 acting = len(lives) - 1
                 run.count("ops_construct")
             elif op in ("unpack", "replace_unpack"):
@@ -274,6 +327,7 @@ def history_part(run, bench, rng, nops):
                 else:
                     acting = rng.randrange(len(lives))
                     lives[acting] = Live(v, r.pkt, model.copy_val(pv))
+                lives[acting].recipe = [("unpack", raw)]
                 run.count("ops_unpack")
             elif op == "set_leaf" or op == "set_nested":
                 acting = rng.randrange(len(lives))
@@ -287,7 +341,12 @@ def history_part(run, bench, rng, nops):
                 for name in path[:-1]:
                     obj = getattr(obj, name)
                     sh = sh.vals[name]
-                setattr(obj, path[-1], val)
+                given = val
+                if isinstance(val, bytes) and rng.random() < 0.3:
+                    given = bytearray(val)      # a mutable byte string handed to this packet only
+                    run.count("bytearray_values_assigned")
+                setattr(obj, path[-1], given)
+                lv.recipe.append(("set", list(path), bytearray(val) if isinstance(given, bytearray) else val))
                 sh.vals[path[-1]] = val
                 refresh_auto(fam, lv.pv)
                 history.append([op, acting, path, val if not isinstance(val, bytes) else b2j(val)])
@@ -300,6 +359,7 @@ def history_part(run, bench, rng, nops):
                 f = rng.choice(list_fields)
                 val = 7 if f["t"] == "int" else (b"\x00" * f["size"] if f.get("mode") == "const" else b"zz")
                 getattr(lv.pkt, f["name"]).append(val)
+                lv.recipe.append(("append", f["name"], val))
                 lv.pv.vals[f["name"]].append(val)
                 history.append(["list_append", acting, f["name"]])
                 run.count("ops_list_append")
